@@ -32,7 +32,7 @@ SELFTEST_TASK = ('short',)
 
 
 def tasks(tier, seed):
-    out = [('short',), ('bytes',)]
+    out = [('short',), ('bytes',), ('amqp',)]
     out += [('product', i) for i in range(len(SYMS))]
     out += [('frames',) + tuple(t) for t in frames.frame_tasks(tier)]
     # the representative frames once more with debug logging switched on
@@ -188,6 +188,24 @@ def run(task, ctx):
                     buf = bytes(n - 1)[:pos] + bytes([v]) + bytes(n - 1)[pos:]
                     ctx.case(buf, v != 0)
                     peek(ctx, buf, 'short')
+    elif kind == 'amqp':
+        # buffers that start like a protocol header are buffers like any
+        # other to the peek: the first seven bytes, whatever they spell
+        alpha = b'\x00\x01\x09\xceAMQP'
+        for head in (b'AMQP', b'AMQ', b'AM', b'A', b'amqp', b'PQMA',
+                     b'\x01AMQ', b'AMQ\x00'):
+            for rest in itertools.product(alpha, repeat=7 - len(head)):
+                for t in TRAILS + [b'\x01', b'\x00\x09\x01']:
+                    buf = head + bytes(rest) + t
+                    ctx.case(buf, True, sample=lambda: {'buffer': buf.hex()})
+                    peek(ctx, buf, 'amqp')
+        for major in (0, 1, 9, 255):
+            for minor in (0, 9, 10, 255):
+                for rev in (0, 1, 255):
+                    buf = refcodec.enc_protocol_header(major, minor, rev)
+                    for b in (buf, buf[:7], buf + buf, bytearray(buf)):
+                        ctx.case(bytes(b), True)
+                        peek(ctx, b, 'amqp')
     elif kind == 'bytes':
         for fill in SYMS:
             for pos in range(7):
